@@ -12,7 +12,7 @@ from __future__ import annotations
 import ast
 from typing import Dict, List, Optional, Set, Tuple
 
-from ..cfg import CFG, returns_only_through
+from ..cfg import CFG, edges_guaranteeing, reaching_defs, returns_only_through
 from ..engine import (
     AnalysisError,
     FuncNode,
@@ -24,11 +24,13 @@ from ..engine import (
     calls_in,
     dotted_name,
     kwarg,
+    mutation_sites,
     norm,
     qualname_of,
     stmt_of,
     walk_no_nested,
 )
+from ..normal import nfunc
 from ..pat import find, find1, match, name_of
 from ..report import Report
 
@@ -92,6 +94,115 @@ def _defs(fn: ast.AST, e: Optional[ast.AST]) -> List[ast.AST]:
         v = assigned_value(fn, e.id)
         return v or [e]
     return [e] if e is not None else []
+
+
+CREATED_ATTR = "_last_created_sequences"
+
+
+def _edges(test: ast.AST, atom) -> Set[str]:
+    """edges_guaranteeing plus the dual cases: `a or b` true guarantees the atom when every disjunct's truth
+    does; `a and b` false guarantees it when every conjunct's falsity does."""
+    out = set(edges_guaranteeing(test, atom))
+    if isinstance(test, ast.UnaryOp) and isinstance(test.op, ast.Not):
+        out |= {"F" if e == "T" else "T" for e in _edges(test.operand, atom)}
+    elif isinstance(test, ast.BoolOp):
+        subs = [_edges(v, atom) for v in test.values]
+        if isinstance(test.op, ast.Or):
+            if all("T" in x for x in subs):
+                out.add("T")
+            if any("F" in x for x in subs):
+                out.add("F")
+        else:
+            if all("F" in x for x in subs):
+                out.add("F")
+            if any("T" in x for x in subs):
+                out.add("T")
+    return out
+
+
+def _reads_created(e: ast.AST) -> bool:
+    """*e* reads the sweep processor's record of materialised sequences (attribute or getattr spelling)."""
+    return any((isinstance(x, ast.Attribute) and x.attr == CREATED_ATTR) or (isinstance(x, ast.Constant) and x.value == CREATED_ATTR) for x in ast.walk(e))
+
+
+def _node_publication(repo: Repo, R: Report, rule: str, qn: str) -> int:
+    """Publication loops `for k, v in D.items(): update_context(ctx, k, v)` of node method *qn* whose D is
+    the processor's `_last_created_sequences`; decided on the normal form (helpers inlined, locals
+    substituted) with the CFG:
+      (a) inside the loop, an iteration that does not write (k, v) went through a branch that guarantees
+          `k == self.context_key` (the node's own result key) - nothing else may be skipped;
+      (b) from `self.processor.process(...)` every path to the normal return enters the loop unless a branch
+          guarantees that nothing was materialised (D is None / not a dict / empty);
+      (c) the context written is the one returned in the Payload.
+    Returns the number of publication loops found."""
+    raw = repo.func(NODES, qn)
+    nf = nfunc(repo, NODES, qn, copyprop="all")
+    g = CFG(nf, may_raise=lambda p: set())
+    exits = {g.ret_exit, g.exc_exit, g.base_exit}
+    found = 0
+    for lp in [n for n in walk_no_nested(nf) if isinstance(n, ast.For)]:
+        m = match("_D_.items()", lp.iter)
+        t = lp.target
+        if not m or not (isinstance(t, ast.Tuple) and len(t.elts) == 2 and all(isinstance(e, ast.Name) for e in t.elts)):
+            continue
+        D = m["_D_"]
+        if not any(_reads_created(x) for x in _defs(nf, D)):
+            continue
+        found += 1
+        k, v = t.elts[0].id, t.elts[1].id
+        dtxt = _u(D)
+        writes = [c for c, _e in find(lp, f"_O_.update_context(_CTX_, {k}, {v})")]
+        line = getattr(lp, "lineno", raw.lineno)
+        R.check(bool(writes), rule, NODES, qn, "update_context(context, key, value) for the pairs of processor._last_created_sequences", f"the loop over `{dtxt}.items()` never writes the (key, sequence) pair into the context as it is", line)
+        if not writes:
+            continue
+        w_nodes = {nid for c in writes for nid in g.nodes_for(stmt_of(c))}
+        lp_nodes = set(g.nodes_for(lp))
+
+        def own_key(e: ast.AST) -> Optional[bool]:
+            if match(f"{k} == self.context_key", e) or match(f"self.context_key == {k}", e):
+                return True
+            if match(f"{k} != self.context_key", e) or match(f"self.context_key != {k}", e):
+                return False
+            return None
+
+        skip_ok = {(n.id, lab) for n in g.nodes if n.kind in ("if", "while") and n.part is not None for lab in _edges(n.part, own_key)}
+        starts = [tgt for nid in lp_nodes for tgt, lab in g.succ[nid] if lab == "T" and tgt not in w_nodes]
+        seen = g.reach(starts, blocked=w_nodes, blocked_edges=skip_ok) if starts else {}
+        bad = [x for x in sorted(lp_nodes) + sorted(exits) if x in seen]
+        path = g.path_to(seen, bad[0]) if bad else []
+        R.check(not bad, rule, NODES, qn, "every (key, sequence) pair is written; only the node's own context key is skipped", f"a materialised <var>_values sequence is skipped for a reason other than being the node's own context key (a stale or missing value stays in the context)", line, path)
+
+        # (b) the loop is entered after process() unless nothing was materialised
+        pcalls = [c for c in calls_in(nf) if match("self.processor.process", c.func)]
+        if not pcalls:
+            raise AnalysisError(f"{qn}: call of self.processor.process not found")
+
+        def nothing(e: ast.AST) -> Optional[bool]:
+            if match("isinstance(_X_, dict)", e) and _u(e.args[0]) == dtxt:
+                return False
+            if (match("_X_ is None", e) or match("_X_ == None", e)) and _u(e.left) == dtxt:
+                return True
+            if (match("_X_ is not None", e) or match("_X_ != None", e)) and _u(e.left) == dtxt:
+                return False
+            if _u(e) == dtxt:
+                return False
+            if match(f"hasattr(self.processor, '{CREATED_ATTR}')", e):
+                return False
+            return None
+
+        none_ok = {(n.id, lab) for n in g.nodes if n.kind in ("if", "while") and n.part is not None for lab in _edges(n.part, nothing)}
+        p_nodes = [nid for c in pcalls for nid in g.nodes_for(stmt_of(c))]
+        seen = g.reach(p_nodes, blocked=lp_nodes, blocked_edges=none_ok)
+        path = g.path_to(seen, g.ret_exit) if g.ret_exit in seen else []
+        R.check(g.ret_exit not in seen, rule, NODES, qn, "after process() the publication loop is entered unless nothing was materialised", "the node can return without publishing the materialised sequences", line, path)
+
+        # (c) the context written is the one handed on
+        rets = find(nf, "return Payload(_A_, _C_)")
+        ctxs = {_u(c.args[0]) for c in writes}
+        ok = bool(rets) and all({_u(e["_C_"])} == ctxs for _r, e in rets)
+        R.check(ok, rule, NODES, qn, "the sequences are written into the context returned in the Payload", "the materialised sequences are written into a context other than the one passed downstream", line)
+    return found
 
 
 def run(repo: Repo, R: Report) -> None:
@@ -299,13 +410,12 @@ def run(repo: Repo, R: Report) -> None:
     w = find(pc, f"for (_k_, _v_) in {cp}.items():\n    {xp}.set_value(_k_, _v_)")
     ok = bool(w) and not any(isinstance(n, ast.If) for n in ast.walk(w[0][0]))
     R.check(ok, r_p, SWEEP, "_publish_created_context", "every created key is written with set_value", "some <var>_values keys are not written", pc.lineno)
-    pn = repo.func(NODES, "_ProbeContextInjectorNode._process_single_item_with_context")
-    ok = False
-    for lp in [n for n in ast.walk(pn) if isinstance(n, ast.For)]:
-        m = match("_D_.items()", lp.iter)
-        if m and any(call_attr(c) == "update_context" for c in calls_in(lp)):
-            ok = ok or any("_last_created_sequences" in _u(v) for v in _defs(pn, m["_D_"]))
-    R.check(ok, r_p, NODES, "_ProbeContextInjectorNode._process_single_item_with_context", "publishes processor._last_created_sequences", "a swept probe declares <var>_values but the probe node never writes them into the context", pn.lineno)
+    r_np = R.rule("C03-D4-node-publication", "a node that publishes the processor's materialised sequences itself writes every (key, sequence) pair of processor._last_created_sequences into the payload's context after process(): the only pair it may skip is the node's own context key, and the only reason not to enter the loop is that nothing was materialised", 4)
+    pqn = "_ProbeContextInjectorNode._process_single_item_with_context"
+    pn = repo.func(NODES, pqn)
+    loops = _node_publication(repo, R, r_np, pqn)
+    R.check(loops > 0, r_p, NODES, pqn, "publishes processor._last_created_sequences", "a swept probe declares <var>_values but the probe node never writes them into the context", pn.lineno)
+    _node_publication(repo, R, r_np, "_DataOperationContextInjectorProbeNode._process_single_item_with_context")
     pk = repo.func(NODES, "_ProbeContextInjectorNode.get_created_keys")
     ok = "cls.processor" in _u(pk) and "get_created_keys" in _u(pk) and "cls.context_key" in _u(pk)
     R.check(ok, r_p, NODES, "_ProbeContextInjectorNode.get_created_keys", "context_key + processor's created keys", "the probe node does not declare the keys its swept processor creates", pk.lineno)
@@ -315,7 +425,7 @@ def run(repo: Repo, R: Report) -> None:
         R.check(ok, r_p, NODES, qn, "processor.observer_context = context before process()", "the swept processor has no context to publish <var>_values into", f.lineno)
 
     # ------------------------------------------------------------------ D5
-    r_y = R.rule("C03-D5-yaml-conversion", "YAML variable specs map to the documented spec classes and defaults: [a, b] of two numbers -> range with 10 steps; other lists and {values} -> sequence as given; {lo, hi, steps[, scale=linear][, endpoint=True]} -> range; {from_context: key}", 6)
+    r_y = R.rule("C03-D5-yaml-conversion", "YAML variable specs map to the documented spec classes and defaults: [a, b] of two numbers -> range with 10 steps; other lists and {values} -> sequence as given; {lo, hi, steps[, scale=linear][, endpoint=True]} -> range; {from_context: key}; the [a, b] shorthand is applied to the bare-list spelling only", 7)
     cv = repo.func(PREP, "_convert_var_specs")
     vl = next((n for n in walk_no_nested(cv) if isinstance(n, ast.For) and isinstance(n.target, ast.Tuple)), None)
     sp = vl.target.elts[1].id if vl is not None else "spec"
@@ -324,6 +434,14 @@ def run(repo: Repo, R: Report) -> None:
     R.check(len(two) == 1, r_y, PREP, "_convert_var_specs", "[a, b] -> RangeSpec(lo=a, hi=b, steps=10)", "the two-number shorthand is not a 10-step linear range from a to b", cv.lineno)
     full = [c for c in rs if match(f"RangeSpec(lo=float({sp}['lo']), hi=float({sp}['hi']), steps=int({sp}['steps']), scale={sp}.get('scale', 'linear'), endpoint={sp}.get('endpoint', True))", c)]
     R.check(len(full) == 1 and len(rs) == 2, r_y, PREP, "_convert_var_specs", "{lo, hi, steps, scale='linear', endpoint=True} -> RangeSpec field by field", "range fields are swapped or documented defaults changed", cv.lineno)
+    # the [a, b] shorthand is a property of the *bare list* spelling: where it is applied, the value tested is the
+    # variable's own YAML value (the loop variable), not something unwrapped from a mapping such as {values: [a, b]}
+    gcv = CFG(cv, may_raise=lambda p: set())
+    for c in two:
+        use = gcv.nodes_for(stmt_of(c))
+        rd = [d for u in use for d in reaching_defs(gcv, sp, u)]
+        bad_rd = [d for d in rd if d.kind != "for"]
+        R.check(bool(rd) and not bad_rd, r_y, PREP, "_convert_var_specs", "the two-number shorthand applies to the variable's own (bare list) value only", f"`{bad_rd[0].text() if bad_rd else sp}` re-binds the spec before the [a, b] shorthand is applied: an explicit sequence written as a mapping (values: [a, b]) is expanded to a 10-step range instead of being swept as given", bad_rd[0].line if bad_rd else cv.lineno)
     ss = [c for c in ast.walk(cv) if isinstance(c, ast.Call) and call_attr(c) == "SequenceSpec"]
     ok = len(ss) == 2 and {_u(c.args[0]) for c in ss if c.args} == {sp, f"{sp}['values']"}
     R.check(ok, r_y, PREP, "_convert_var_specs", "lists / {values} -> SequenceSpec(values as given)", "explicit sequences are transformed (sorted, deduplicated, ...)", cv.lineno)
@@ -358,7 +476,7 @@ def run(repo: Repo, R: Report) -> None:
     logs = [c for c in calls_in(ms) if call_name(c) == "np.logspace"]
     ok = len(logs) == 2 and all(match(f"np.logspace(np.log10({spec}.lo), _H_, {spec}.steps)", c) for c in logs) and any(match(f"np.logspace(np.log10({spec}.lo), np.log10({spec}.hi), {spec}.steps)", c) for c in logs)
     R.check(ok, r_mat, SWEEP, "_materialize_sequences", "np.logspace(log10(lo), log10(hi | adjusted), steps)", "a log range is not built from log10(lo), log10(hi), steps", ms.lineno)
-    ok = bool(find(ms, f"_X_ = list({spec}.values)"))
+    ok = bool(find(nfunc(repo, SWEEP, "_materialize_sequences"), f"_X_ = list({spec}.values)"))  # normal form: helpers inlined
     R.check(ok, r_mat, SWEEP, "_materialize_sequences", "seq_list = list(spec.values)", "explicit sequences are reordered / deduplicated", ms.lineno)
     params_p = ms.args.kwonlyargs[1].arg if len(ms.args.kwonlyargs) > 1 else "params"
     fcb = next((n for n in ast.walk(ms) if isinstance(n, ast.If) and "FromContext" in _u(n.test)), None)
@@ -371,3 +489,61 @@ def run(repo: Repo, R: Report) -> None:
     R.check(ok, r_mat, SWEEP, "_materialize_sequences", "from_context: params[spec.key] with missing / non-sequence / empty guards", "a from_context variable is read without its guards (or from another key)", ms.lineno)
     ok = any(isinstance(n, ast.If) and match(f"{spec}.scale == 'linear'", n.test) for n in ast.walk(ms)) and any(isinstance(n, ast.If) and match(f"{spec}.endpoint", n.test) for n in ast.walk(ms))
     R.check(ok, r_mat, SWEEP, "_materialize_sequences", "branches on spec.scale and spec.endpoint", "scale / endpoint no longer select the materialisation", ms.lineno)
+
+    # ------------------------------------------------------------------ D6 (element-preserving copy)
+    r_seq = R.rule("C03-D6-sequence-as-given", "for every variable kind the list that is swept and published is a plain list(<source>) copy - of the np.linspace / np.logspace result, of spec.values, of params[spec.key] - so item i keeps its value, type and position (no array coercion, sort, dedup or mapping), and is not modified in place afterwards", 5)
+    nms = nfunc(repo, SWEEP, "_materialize_sequences", copyprop="all")
+    stores = find(nms, f"{SQ}[{var}] = _X_")
+    kinds: Set[str] = set()
+
+    def _flat(e: ast.AST) -> List[ast.AST]:
+        return _flat(e.body) + _flat(e.orelse) if isinstance(e, ast.IfExp) else [e]
+
+    def _assignments(name: str) -> List[Tuple[ast.AST, ast.AST]]:
+        out = []
+        for n in walk_no_nested(nms):
+            if isinstance(n, ast.Assign) and any(isinstance(t, ast.Name) and t.id == name for t in n.targets):
+                out.append((n, n.value))
+            elif isinstance(n, ast.AnnAssign) and isinstance(n.target, ast.Name) and n.target.id == name and n.value is not None:
+                out.append((n, n.value))
+        return out
+
+    def _sources(e: ast.AST, depth: int = 0) -> List[ast.AST]:
+        """The expressions *e* stands for: a local name is replaced by its definitions (conditional expressions split)."""
+        outs: List[ast.AST] = []
+        for x in _flat(e):
+            ds = _assignments(x.id) if isinstance(x, ast.Name) and depth < 4 else []
+            if ds:
+                for _s, d in ds:
+                    outs.extend(_sources(d, depth + 1))
+            else:
+                outs.append(x)
+        return outs
+
+    def _kind(src: ast.AST) -> Optional[str]:
+        if isinstance(src, ast.Call) and call_name(src) in ("np.linspace", "np.logspace", "numpy.linspace", "numpy.logspace"):
+            return "range"
+        if match(f"{spec}.values", src):
+            return "explicit"
+        if match(f"{params_p}[{spec}.key]", src):
+            return "from_context"
+        return None
+
+    if len(stores) != 1:
+        raise AnalysisError("_materialize_sequences: the store sequences[var] = <list> was not found exactly once in the normal form")
+    X = stores[0][1]["_X_"]
+    defs_x = _assignments(X.id) if isinstance(X, ast.Name) else [(stores[0][0], X)]
+    for st, d in defs_x:
+        for leaf in _flat(d):
+            m = match("list(_E_)", leaf)
+            srcs = _sources(m["_E_"]) if m else []
+            ks = {_kind(s) for s in srcs}
+            ok = bool(m) and bool(ks) and None not in ks and len(ks) == 1
+            if ok:
+                kinds |= ks  # type: ignore[arg-type]
+            label = next(iter(ks)) if ok else "?"
+            R.check(ok, r_seq, SWEEP, "_materialize_sequences", f"{label}: swept list = list(<source>)", f"`{_u(st)[:120]}`: the swept / published sequence is not a plain list(...) copy of its source (np.linspace/np.logspace result, spec.values or params[spec.key]); items are coerced, reordered or rebuilt before they are swept", getattr(st, "lineno", ms.lineno))
+    R.check(kinds >= {"range", "explicit", "from_context"}, r_seq, SWEEP, "_materialize_sequences", "range, explicit and from_context variables each have a list(<source>) definition", f"no element-preserving definition found for variable kind(s) {sorted({'range', 'explicit', 'from_context'} - kinds)}", ms.lineno)
+    if isinstance(X, ast.Name):
+        muts = mutation_sites(nms, {X.id})
+        R.check(not muts, r_seq, SWEEP, "_materialize_sequences", "the swept list is not modified in place after it was copied", f"`{_u(muts[0][0])[:120]}` modifies the swept / published list in place (items reordered, dropped or replaced)" if muts else "", getattr(muts[0][0], "lineno", ms.lineno) if muts else ms.lineno)
